@@ -58,13 +58,15 @@ def _case(draw, tier):
     steps = []
     nsaved = 0
     for _ in range(draw(st.integers(2, 5))):
-        kinds = ["save", "perturb", "reset"] + (["load", "load"] if nsaved else [])
+        kinds = ["save", "perturb", "reset", "derive"] + (["load", "load"] if nsaved else [])
         k = draw(st.sampled_from(kinds))
         if k == "save":
             nsaved += 1
             steps.append(["save"])
         elif k == "load":
             steps.append(["load", draw(st.integers(0, nsaved - 1))])
+        elif k == "derive":
+            steps.append(["derive"])
         else:
             steps.append([k, draw(st.integers(0, 2**16))])
     if nsaved == 0:
@@ -122,20 +124,27 @@ def run_case(case):
     scopes_all = ops.node_scopes(pipe, base_specs)
     feat = opcheck.feat(case)
 
-    def compile_all(torch_seed):
+    used = ops.used_bases(pipe)
+    lazy = any(s[0] == "derive" for s in case["steps"]) and len(pipe) > len(base_specs)
+
+    def compile_all(torch_seed, only_bases=False):
         torch.manual_seed(torch_seed)
         base_scs = [build(s) for s in base_specs]
         scs = ops.build_pipeline(pipe, base_scs)
         comp = TorchCompiler(semiring=sem, fold=case["fold"], optimize=case["optimize"])
         with sut("compile"):
-            comp.compile(scs[-1])
+            if only_bases:
+                for b in used:
+                    comp.compile(base_scs[b])
+            else:
+                comp.compile(scs[-1])
         idx = [i for i, sc in enumerate(scs) if comp.is_compiled(sc)]
         ccs = [comp.get_compiled_circuit(scs[i]) for i in idx]
         return base_scs, scs, comp, idx, ccs
 
-    base_a, scs_a, comp_a, idx, ccs_a = compile_all(case["vseed"])
+    # with 'derive' steps in the history the derived circuits are compiled later, after values were set / loaded
+    base_a, scs_a, comp_a, idx, ccs_a = compile_all(case["vseed"], only_bases=lazy)
     scopes = [scopes_all[i] for i in idx]
-    used = ops.used_bases(pipe)
     tensors_a = tie.sym_tensors(*[base_a[i] for i in used])
     vals = tie.draw_values(tensors_a, case["vseed"], case["profile"])
     tie.write_values(comp_a, vals)
@@ -158,8 +167,29 @@ def run_case(case):
 
     snaps = []  # (blobs, outputs)
     reloads = 0
-    for step in case["steps"]:
+    steps = list(case["steps"])
+    if lazy:
+        steps.append(["derive"])  # the derived circuits are compiled at the latest before the fresh instance is built
+    for step in steps:
         k = step[0]
+        if k == "derive":
+            if lazy and not comp_a.is_compiled(scs_a[-1]):
+                with sut("evaluate"):
+                    before = _outputs(ccs_a, scopes, X)
+                with sut("compile-derived"):
+                    comp_a.compile(scs_a[-1])
+                with sut("evaluate"):
+                    after = _outputs(ccs_a, scopes, X)
+                for j, (a, b) in enumerate(zip(after, before)):
+                    if not _same(a, b):
+                        raise Violation("compile-derived-leaves-operands-untouched", f"{feat}:operand-changed-by-compiling-derived",
+                                        f"outputs of circuit node {idx[j]} changed when a derived circuit was compiled "
+                                        f"(max |diff| {np.nanmax(np.abs(a - b)):.3e})")
+                idx = [i for i, sc in enumerate(scs_a) if comp_a.is_compiled(sc)]
+                ccs_a = [comp_a.get_compiled_circuit(scs_a[i]) for i in idx]
+                scopes = [scopes_all[i] for i in idx]
+                snaps = []  # snapshots taken before cover fewer circuits: start over
+            continue
         if k == "save":
             with sut("state_dict"):
                 blobs = _save(ccs_a)
@@ -178,7 +208,9 @@ def run_case(case):
                 for cc in ccs_a:
                     cc.reset_parameters()
         else:
-            blobs, ys = snaps[step[1]]
+            if not snaps:
+                continue  # snapshots were discarded by a later 'derive'
+            blobs, ys = snaps[step[1] % len(snaps)]
             _load(ccs_a, blobs, f"{feat}:same-instance")
             with sut("evaluate"):
                 got = _outputs(ccs_a, scopes, X)
@@ -187,6 +219,11 @@ def run_case(case):
                     raise Violation("reload-same-instance", f"{feat}:same-instance-differs",
                                     f"circuit node {idx[j]}: max |diff| {np.nanmax(np.abs(a - b)):.3e}")
             reloads += 1
+    if not snaps:  # always at least one snapshot that covers every compiled circuit
+        with sut("state_dict"):
+            blobs = _save(ccs_a)
+        with sut("evaluate"):
+            snaps.append((blobs, _outputs(ccs_a, scopes, X)))
     # fresh instance with different initial values
     base_b, scs_b, comp_b, idx_b, ccs_b = compile_all(case["vseed"] + 977)
     if idx_b != idx:
